@@ -166,6 +166,120 @@ Section OpenJournal.
       + split; [exact Eu|]. split; [reflexivity|]. exact Hin.
   Qed.
 
+  (* ---------------------------------------------------------------- read-write: flushes in between *)
+  Lemma rep_empty_ok d : MemOps.rep (ibc c) mp d [] [] [] 0 -> mem_ok c kp mp d /\ mem_entries mp (Some d) = [].
+  Proof.
+    intros (I & Eabs & _).
+    assert (Ep : mem_pairs mp d = []).
+    { rewrite (mem_pairs_abs c kp seek_val mp mpok d [] [] I). exact Eabs. }
+    split.
+    - split; [exists [], []; exact I|]. unfold mem_keys_okb. rewrite Ep. reflexivity.
+    - cbn [mem_entries]. rewrite Ep. reflexivity.
+  Qed.
+
+  Lemma reset_mem_ok d : mem_ok c kp mp d ->
+    exists d', MemDB.mdb_reset mp d = MemDB.Ok d' /\ mem_ok c kp mp d' /\ mem_entries mp (Some d') = [].
+  Proof.
+    intros [(A & L & I) _].
+    destruct (MemOps.reset_ok (ibc c) mp mpok d (MemInv.inv_head _ _ _ _ _ I)) as (d' & E & R).
+    exists d'. split; [exact E|]. apply rep_empty_ok. exact R.
+  Qed.
+
+  (* files *)
+  Lemma ftype_eqb_eq a b : SW.ftype_eqb a b = true <-> a = b.
+  Proof. destruct a, b; cbn; split; intros H; try reflexivity; discriminate. Qed.
+
+  Lemma fd_eqb_eq (a b : SW.fd) : SW.fd_eqb a b = true <-> a = b.
+  Proof.
+    destruct a as [ta na], b as [tb nb]. unfold SW.fd_eqb. cbn [fst snd]. rewrite andb_true_iff, ftype_eqb_eq, N.eqb_eq.
+    split; [intros [-> ->]; reflexivity|intros E; injection E as -> ->; split; reflexivity].
+  Qed.
+
+  Lemma fd_eqb_neq (a b : SW.fd) : a <> b -> SW.fd_eqb a b = false.
+  Proof. intros H. destruct (SW.fd_eqb a b) eqn:E; [|reflexivity]. apply fd_eqb_eq in E. contradiction. Qed.
+
+  Lemma f_lookup_del_other fs x y : y <> x -> f_lookup (f_del fs x) y = f_lookup fs y.
+  Proof.
+    intros H. induction fs as [|[z d] fs IH]; [reflexivity|]. unfold f_del in *. cbn [filter fst f_lookup].
+    destruct (SW.fd_eqb x z) eqn:E; cbn [negb].
+    - apply fd_eqb_eq in E. subst z. rewrite (fd_eqb_neq y x H). exact IH.
+    - cbn [f_lookup]. destruct (SW.fd_eqb y z); [reflexivity|exact IH].
+  Qed.
+
+  Lemma f_lookup_set_other fs x d y : y <> x -> f_lookup (f_set fs x d) y = f_lookup fs y.
+  Proof. intros H. unfold f_set. cbn [f_lookup]. rewrite (fd_eqb_neq y x H). apply f_lookup_del_other. exact H. Qed.
+
+  (* the journal files other than [except] are the same in both storages *)
+  Definition same_journals (except : option N) (fs fs' : files) : Prop :=
+    forall j, except <> Some j -> f_lookup fs' (SW.FJournal, j) = f_lookup fs (SW.FJournal, j).
+
+  Lemma same_journals_refl e fs : same_journals e fs fs.
+  Proof. intros j _. reflexivity. Qed.
+
+  Lemma same_journals_trans e fs1 fs2 fs3 : same_journals None fs1 fs2 -> same_journals e fs2 fs3 -> same_journals e fs1 fs3.
+  Proof. intros A B j Hj. rewrite (B j Hj). apply A. discriminate. Qed.
+
+  Lemma same_journals_set_table e fs t d : same_journals e fs (f_set fs (SW.FTable, t) d).
+  Proof. intros j _. apply f_lookup_set_other. discriminate. Qed.
+  Lemma same_journals_set_manifest e fs t d : same_journals e fs (f_set fs (SW.FManifest, t) d).
+  Proof. intros j _. apply f_lookup_set_other. discriminate. Qed.
+  Lemma same_journals_del_manifest e fs t : same_journals e fs (f_del fs (SW.FManifest, t)).
+  Proof. intros j _. apply f_lookup_del_other. discriminate. Qed.
+  Lemma same_journals_del_journal fs o : same_journals (Some o) fs (f_del fs (SW.FJournal, o)).
+  Proof. intros j Hj. apply f_lookup_del_other. intros E. injection E as ->. apply Hj. reflexivity. Qed.
+  Lemma same_journals_weaken e fs fs' : same_journals None fs fs' -> same_journals e fs fs'.
+  Proof. intros H j _. apply H. discriminate. Qed.
+
+  Local Notation flushm := (flush_memdb rp kp mp tp tcrc compress snappy fgen blockSize ri c).
+
+  Lemma flush_memdb_facts st st' : flushm st = OOk st' ->
+    r_seq st' = r_seq st /\ r_mdb st' = r_mdb st /\ r_hts st' = r_hts st /\ r_kept st' = r_kept st /\
+    same_journals None (c_files (r_c st)) (c_files (r_c st')).
+  Proof.
+    unfold flush_memdb. destruct (Table.twrite _ _ _ _ _ _ _ _ _) as [file|]; [|discriminate].
+    intros E. injection E as <-. cbn [r_seq r_mdb r_hts r_kept r_c c_files].
+    repeat split; try reflexivity. apply same_journals_set_table.
+  Qed.
+
+  (* one written record, not strict, with the flush *)
+  Lemma replay_record_written_rw o j b st st' :
+    oo_strict_j o = false -> jb_ok b -> mem_inv st -> rrec o true j (jb_enc b) st = OOk st' ->
+    mem_inv st' /\ same_journals None (c_files (r_c st)) (c_files (r_c st')) /\
+    if fst b <? r_seq st
+    then r_seq st' = r_seq st /\ r_kept st' = r_kept st
+    else r_seq st' = fst b + jb_n b /\ r_kept st' = r_kept st ++ [(fst b, jb_n b)].
+  Proof.
+    intros Hns Hb Hinv.
+    destruct (replay_record_written o j b st Hns Hb Hinv) as (st1 & E1 & Ec1 & Er1 & Hinv1 & Hcase).
+    revert E1. unfold replay_record.
+    destruct (decode_to_mem kp bhl (ibc c) mp (jb_enc b) (r_seq st) (r_mdb st) (r_hts st)) as [sq bl d hts|e d hts| |];
+      try discriminate.
+    - (* accepted *)
+      cbn [andb]. intros E1. injection E1 as <-. cbn [r_c r_rec r_seq r_mdb r_hts r_kept] in *.
+      destruct (fst b <? r_seq st) eqn:Elt.
+      { (* the model says rejected, but decode accepted: r_kept would differ *)
+        destruct Hcase as (_ & _ & _ & K). exfalso. clear - K.
+        assert (L : length (r_kept st ++ [(sq, bl)]) = length (r_kept st)) by (rewrite K; reflexivity).
+        rewrite app_length in L. cbn in L. lia. }
+      destruct Hcase as (S1 & K1 & _).
+      destruct (oo_wbuf o <=? MemDB.mdb_size d)%Z.
+      + destruct (flushm _) as [st2|e2] eqn:Ef; cbn [obind]; [|discriminate].
+        destruct (flush_memdb_facts _ _ Ef) as (Fs & Fm & Fh & Fk & Fj). cbn [r_seq r_mdb r_hts r_kept r_c] in *.
+        destruct (reset_mem_ok (r_mdb st2)) as (d0 & Er & Hm0 & He0); [rewrite Fm; exact (proj1 Hinv1)|].
+        rewrite Er. cbn [of_mres obind]. intros E. injection E as <-.
+        unfold mem_inv, set_mdb. cbn [r_seq r_mdb r_hts r_kept r_c].
+        split; [split; [exact Hm0|split; [rewrite Fh; exact (proj1 (proj2 Hinv1))|intros x Hx; rewrite He0 in Hx; destruct Hx]]|].
+        split; [exact Fj|]. rewrite Fs, Fk. split; [exact S1|exact K1].
+      + intros E. injection E as <-. cbn [r_seq r_mdb r_hts r_kept r_c].
+        split; [exact Hinv1|]. split; [apply same_journals_refl|]. split; [exact S1|exact K1].
+    - (* rejected or damaged: not strict *)
+      rewrite Hns. intros E1 E. rewrite E1 in E. injection E as <-.
+      split; [exact Hinv1|]. split; [rewrite Ec1; apply same_journals_refl|].
+      destruct (fst b <? r_seq st).
+      + destruct Hcase as (S1 & _ & _ & K1). split; assumption.
+      + destruct Hcase as (S1 & K1 & _). split; assumption.
+  Qed.
+
   Definition jb_pair (b : jbatch) : N * N := (fst b, jb_n b).
 
   (* a list of written records *)
@@ -194,6 +308,26 @@ Section OpenJournal.
         split; [exact Es'|]. split.
         * rewrite Ek', K1. cbn [map]. rewrite <- app_assoc. reflexivity.
         * intros x. rewrite Hin', Hin1. cbn [flat_map]. rewrite in_app_iff. tauto.
+  Qed.
+
+  Lemma replay_recs_written_rw o j bs : oo_strict_j o = false -> Forall jb_ok bs -> forall st st', mem_inv st ->
+    replay_recs o true j (map jb_enc bs) st = OOk st' ->
+    mem_inv st' /\ same_journals None (c_files (r_c st)) (c_files (r_c st')) /\
+    r_seq st' = snd (accepted bs (r_seq st)) /\
+    r_kept st' = r_kept st ++ map jb_pair (fst (accepted bs (r_seq st))).
+  Proof.
+    intros Hns Hbs. induction Hbs as [|b r Hb Hr IH]; intros st st' Hinv.
+    - cbn [map replay_recs accepted fst snd]. intros E. injection E as <-. rewrite app_nil_r.
+      split; [exact Hinv|]. split; [apply same_journals_refl|]. split; reflexivity.
+    - cbn [map replay_recs]. destruct (rrec o true j (jb_enc b) st) as [st1|e] eqn:E1; cbn [obind]; [|discriminate].
+      intros E'. destruct (replay_record_written_rw o j b st st1 Hns Hb Hinv E1) as (Hinv1 & J1 & Hcase).
+      destruct (IH st1 st' Hinv1 E') as (Hinv' & J' & Es' & Ek').
+      split; [exact Hinv'|]. split; [exact (same_journals_trans None _ _ _ J1 J')|].
+      cbn [accepted]. destruct (fst b <? r_seq st).
+      + destruct Hcase as (S1 & K1). rewrite S1 in *. rewrite K1 in Ek'. split; assumption.
+      + destruct Hcase as (S1 & K1). rewrite S1 in *.
+        destruct (accepted r (fst b + jb_n b)) as [a e]. cbn [fst snd] in *.
+        split; [exact Es'|]. rewrite Ek', K1. cbn [map]. rewrite <- app_assoc. reflexivity.
   Qed.
 
   (* replay_journal over consecutive journals = over their concatenation *)
